@@ -311,12 +311,12 @@ pub fn exact_quat(r: &mut Rng) -> [f64; 4] {
         _ => { let mut q = [0.5; 4]; for x in q.iter_mut() { if r.bool() { *x = -*x; } } q }
     }
 }
-fn iso_of(q: [f64; 4], t: Vector<Real>) -> Isometry<Real> {
+pub fn iso_of(q: [f64; 4], t: Vector<Real>) -> Isometry<Real> {
     Isometry::from_parts(na::Translation3::from(t), na::Unit::new_unchecked(na::Quaternion::new(q[3], q[0], q[1], q[2])))
 }
-fn quarter(r: &mut Rng, k: i64) -> f64 { r.range(-k, k) as f64 * 0.25 }
+pub fn quarter(r: &mut Rng, k: i64) -> f64 { r.range(-k, k) as f64 * 0.25 }
 /// a moderate-size convex part (ball / cuboid / capsule)
-fn gen_part(r: &mut Rng, lat: bool) -> Sh {
+pub fn gen_part(r: &mut Rng, lat: bool) -> Sh {
     let e = |r: &mut Rng| if lat { *r.pick(&[0.25, 0.5, 1.0, 1.5, 2.0]) } else { r.uniform(0.2, 2.0) };
     match r.below(3) {
         0 => Sh::Ball(e(r)),
@@ -356,7 +356,7 @@ pub fn gen_trimesh(r: &mut Rng, lat: bool) -> Sh {
     }
 }
 /// a point well inside the composite, in its local frame
-fn interior_point(r: &mut Rng, lat: bool, s: &Sh) -> Point<Real> {
+pub fn interior_point(r: &mut Rng, lat: bool, s: &Sh) -> Point<Real> {
     let f = |r: &mut Rng| if lat { *r.pick(&[-0.5, -0.25, 0.0, 0.25, 0.5]) } else { r.uniform(-0.7, 0.7) };
     match s {
         Sh::Compound(ps) => { let (m, part) = r.pick(ps).clone();
@@ -912,5 +912,16 @@ pub mod two {
             v.push(("o2_cast".into(), format!("{} {} {} {} {} {} {} {} {} {}", hsh(&s1), d2::hiso(&p1), d2::hv(&v1), hsh(&s2), d2::hiso(&p2), d2::hv(&v2),
                 d2::hiso(&g), hx(target), b(r.bool()), hx(maxtoi))));
         }
+    }
+    /// C02: contact self-consistency cases in 2-D (Compound with rotated parts / Polyline against convex shapes, both orders)
+    pub fn gen_k(r: &mut Rng, lat: bool, v: &mut Vec<(String, String)>) {
+        let all: [u8; 6] = [0, 1, 2, 3, 4, 5];
+        let comp = if r.below(4) == 0 { gen_polyline(r, lat) } else { gen_compound(r, lat) };
+        let other = match r.below(6) { 0 => gen_compound(r, lat), 1 => gen_shape(r, lat, &all), _ => gen_part(r, lat) };
+        let (p1, mut p2, _) = gen_poses(r, lat, &comp, &other);
+        if r.below(4) == 0 { p2.translation.vector = (p1 * interior_point(r, &comp)).coords; }
+        let pred = super::gen_param(r, lat).max(if lat { 0.5 } else { 0.3 });
+        v.push(("k2_contact".into(), format!("{} {} {} {} {}", hsh(&comp), d2::hiso(&p1), hsh(&other), d2::hiso(&p2), hx(pred))));
+        v.push(("k2_contact".into(), format!("{} {} {} {} {}", hsh(&other), d2::hiso(&p2), hsh(&comp), d2::hiso(&p1), hx(pred))));
     }
 }
